@@ -380,3 +380,234 @@ def c14_r10(ctx):
     ctx.check(names == {"f'{<elem>(type_names) and self.schema.get_type(<elem>(type_names)).name}{self._get_suffix(graphql_type=self.schema.get_type(<elem>(type_names)))}'"} or
               all(("self._get_suffix(" in n and ".name" in n) for n in names) and bool(names), key(po, "class name"),
               f"builder classes are named {sorted(names)}; expected <type name> + _get_suffix(<type>)", po.loc(), okmsg="builder class name = type name + kind suffix")
+
+
+TC_ = "client_generators.custom_generator_utils:TypeCollector."
+CO_ = "client_generators.custom_operation:CustomOperationGenerator."
+
+
+@rule("C14.R11", "builder classes exist for every type reachable from the query and mutation roots (worklist over fields, union members and interfaces)", min_instances=9, also=["C04"])
+def c14_r11(ctx):
+    repo = ctx.repo
+    co = repo.func(TC_ + "collect")
+    eff = lambda c: norm(c.func) == "self._collect_types"
+    for q, m in ((True, True), (True, False), (False, True), (False, False)):
+        outs = Interp(co, lambda e, q=q, m=m: (q if norm(strip_pre(e)) == "self.schema.query_type" else m if norm(strip_pre(e)) == "self.schema.mutation_type" else None), is_effect=eff).run()
+        want = ([("self._collect_types(fields=self.schema.query_type.fields)", "self._collect_types(self.schema.query_type.fields)")] if q else []) + \
+               ([("self._collect_types(fields=self.schema.mutation_type.fields)", "self._collect_types(self.schema.mutation_type.fields)")] if m else [])
+        good = bool(outs)
+        for o in outs:
+            effs = [norm(strip_pre(e)) for e in o.effects]
+            good = good and len(effs) == len(want) and all(e in w for e, w in zip(effs, want)) and o.kind == "return" and norm(strip_pre(o.value)) == "sorted(self.collected_types)"
+        ctx.check(good, key(co, f"query={q} mutation={m}"), f"[query root={q}, mutation root={m}] roots walked: {[[norm(strip_pre(e))[:60] for e in o.effects] for o in outs]}, "
+                  f"returns {[norm(strip_pre(o.value))[:50] if o.value is not None else None for o in outs]}; expected the present roots and sorted(collected)", co.loc(),
+                  okmsg=f"query={q} mutation={m}: walks the present roots, returns the sorted names")
+    ct = repo.func(TC_ + "_collect_types")
+    outs = [o for o in Interp(ct, lambda e: None, is_effect=lambda c: norm(c.func) == "self._collect_dependent_types").run() if any("loop body once" in t for t in o.trace)]
+    ctx.check(bool(outs) and all([norm(strip_pre(e)) for e in o.effects] in (["self._collect_dependent_types(graphql_type=get_final_type(type_=<elem>(fields.values())))"],
+                                                                             ["self._collect_dependent_types(get_final_type(<elem>(fields.values())))"]) for o in outs),
+              key(ct, "each field"), f"every root field's final type must be walked: {[o.text()[:120] for o in outs]}", ct.loc(), okmsg="every field of a root: its final type is walked")
+    cd = repo.func(TC_ + "_collect_dependent_types")
+    eff2 = lambda c: isinstance(c.func, ast.Attribute) and c.func.attr in ("add", "append", "extend") and dotted(c.func).split(".")[0] in ("self", "stack")
+
+    def mk(visited, kind, sub_kind=None):
+        def atom(e):
+            t = norm(strip_pre(e))
+            if t == "stack":
+                return True
+            if t.endswith(".name in self.visited_types"):
+                return visited
+            if t.endswith(".name not in self.visited_types"):
+                return not visited
+            if t.startswith("isinstance(") and "subfield" not in t and "get_final_type" not in t:
+                return kind is not None and t.endswith(f", {kind})")
+            if t.startswith("isinstance("):
+                return sub_kind is not None and t.endswith(f", {sub_kind})")
+            return None
+        return atom
+
+    def effects_of(visited, kind, sub_kind=None):
+        res = []
+        try:
+            outs_ = Interp(cd, mk(visited, kind, sub_kind), is_effect=eff2, max_paths=64).run()
+        except Exception:
+            outs_ = []
+        for o in outs_:
+            res.append([norm(strip_pre(e)) for e in o.effects])
+        return res
+    # the while loop is summarised by the interpreter like a for loop (body once / skipped); the body is judged on the effect lists
+    cur = "stack.pop()"
+    rows = [("already visited", (True, "GraphQLObjectType", None), lambda e: not any("self.collected_types.add" in x or "stack.append" in x or "stack.extend" in x for x in e)),
+            ("new object type", (False, "GraphQLObjectType", "GraphQLObjectType"), lambda e: any("self.visited_types.add(" in x for x in e) and any("self.collected_types.add(" in x for x in e) and any(x.startswith("stack.append(get_final_type(") for x in e) and any("interfaces" in x and x.startswith("stack.append(") for x in e)),
+            ("object type with a union-typed field", (False, "GraphQLObjectType", "GraphQLUnionType"), lambda e: any(x.startswith("stack.extend(get_final_type(") and x.endswith(".types)") for x in e)),
+            ("new interface type", (False, "GraphQLInterfaceType", "GraphQLObjectType"), lambda e: any("self.collected_types.add(" in x for x in e) and any(x.startswith("stack.append(get_final_type(") for x in e)),
+            ("new union type", (False, "GraphQLUnionType", None), lambda e: any("self.collected_types.add(" in x for x in e) and any(x.startswith("stack.extend(") and x.endswith(".types)") for x in e))]
+    for label, args, pred in rows:
+        es = [e for e in effects_of(*args)]
+        body_runs = [e for e in es if e] if label != "already visited" else es
+        if label == "already visited":
+            good = bool(body_runs) and all(pred(e) for e in body_runs)
+        else:
+            # paths on which an inner loop is skipped (a type without fields / interfaces) have fewer effects: every path marks and
+            # collects the type, the full path expands it
+            good = bool(body_runs) and all(any("self.visited_types.add(" in x for x in e) and any("self.collected_types.add(" in x for x in e) for e in body_runs) and any(pred(e) for e in body_runs)
+        ctx.check(good, key(cd, label), f"[{label}] effects {body_runs[:2]}: a reachable type that is not collected gets no builder class (NameError in custom_fields.py); a visited type must not be expanded again", cd.loc(),
+                  okmsg=f"[{label}] worklist step as specified")
+
+
+CA_ = "client_generators.custom_arguments:ArgumentGenerator."
+
+
+@rule("C14.R12", "custom operations: the root builder returns the builder class of the field's kind with the GraphQL field name; argument annotations / imports per argument kind; "
+                 "required arguments positional, optional ones keyword-only defaulting to None", min_instances=20, also=["C04", "C07"])
+def c14_r12(ctx):
+    repo = ctx.repo
+    # (a) return type of a root field builder, and where it is imported from
+    gr = repo.func(CO_ + "_get_return_type_and_from")
+    eff = lambda c: norm(c.func) == "self._type_imports.append"
+    table = {"GraphQLObjectType": ("f'{final_type.name}Fields'", "CUSTOM_FIELDS_FILE_PATH.stem"), "GraphQLInterfaceType": ("f'{final_type.name}Interface'", "CUSTOM_FIELDS_FILE_PATH.stem"),
+             "GraphQLUnionType": ("f'{final_type.name}Union'", "CUSTOM_FIELDS_TYPING_FILE_PATH.stem"), None: ("'GraphQLField'", "CUSTOM_FIELDS_TYPING_FILE_PATH.stem")}
+    for kind, (nm, frm) in table.items():
+        outs = [o for o in Interp(gr, lambda e, kind=kind: ((kind is not None and norm(strip_pre(e)) == f"isinstance(final_type, {kind})") if norm(strip_pre(e)).startswith("isinstance(final_type, ") else None),
+                                  is_effect=eff).run() if o.kind == "return"]
+        good = bool(outs)
+        for o in outs:
+            v = strip_pre(o.deref(o.value)) if isinstance(o.value, ast.Name) else strip_pre(o.value)
+            imp = [strip_pre(allargs(strip_pre(e))[0]) for e in o.effects if allargs(strip_pre(e))]
+            good = good and norm(v) in (nm, "GRAPHQL_BASE_FIELD_CLASS" if kind is None else nm) and len(imp) == 1
+            if good:
+                f_ = kw(imp[0], "from_")
+                f_ = strip_pre(o.deref(f_)) if isinstance(f_, ast.Name) else f_
+                n_ = kw(imp[0], "names")
+                good = f_ is not None and norm(f_) == frm and is_const(kw(imp[0], "level"), 1) and n_ is not None and isinstance(n_, ast.List) and len(n_.elts) == 1 and \
+                    norm(strip_pre(o.deref(n_.elts[0])) if isinstance(n_.elts[0], ast.Name) else n_.elts[0]) in (nm, "GRAPHQL_BASE_FIELD_CLASS")
+        ctx.check(good, key(gr, f"kind {kind or 'leaf'}"), f"a root field of kind {kind or 'scalar / enum'} must return {nm}, imported (level 1) from {frm}: {[o.text()[:140] for o in outs]}", gr.loc(),
+                  okmsg=f"{kind or 'leaf'} root field -> {nm} from {frm}")
+    # (b) one classmethod per root field; `pass` for an empty root; module = imports + type imports + class
+    g = repo.func(CO_ + "generate")
+    eff2 = lambda c: norm(c.func) in ("self._class_def.body.append", "self.argument_generator.add_custom_scalar_imports")
+    outs = [o for o in Interp(g, lambda e: (False if norm(strip_pre(e)) == "not self._class_def.body" else True if norm(strip_pre(e)) == "self._class_def.body" else None), is_effect=eff2).run()
+            if o.kind == "return" and any("loop body once" in t for t in o.trace)]
+    good = bool(outs)
+    for o in outs:
+        effs = [norm(strip_pre(e)) for e in o.effects]
+        el = "<elem>(self.graphql_fields.items())"
+        md = [norm(strip_pre(o.deref(allargs(strip_pre(e))[0]))) for e in o.effects if norm(strip_pre(e).func) == "self._class_def.body.append" and allargs(strip_pre(e))]
+        good = good and len(md) == 1 and md[0].startswith("self._generate_method(") and f"operation_name={el}[0]" in md[0] and f"operation_args={el}[1].args" in md[0] and f"final_type=get_final_type(type_={el}[1])" in md[0] \
+            and "self.argument_generator.add_custom_scalar_imports()" in effs
+        v = norm(strip_pre(subst(o.value, o.env, deep=True)))
+        good = good and v.startswith("generate_module(body=") and v.index("self._imports") < v.index("self._type_imports") < v.index("[self._class_def]")
+    ctx.check(good, key(g, "methods"), f"one builder method per root field (name, args, final type of that field), scalar imports added, module = imports + type imports + class: {[o.text()[:160] for o in outs][:1]}", g.loc(),
+              okmsg="one method per root field; module = imports + type imports + class")
+    outs = [o for o in Interp(g, lambda e: (True if norm(strip_pre(e)) == "not self._class_def.body" else False if norm(strip_pre(e)) == "self._class_def.body" else None), is_effect=eff2).run()
+            if o.kind == "return" and any("loop skipped" in t for t in o.trace)]
+    ctx.check(bool(outs) and all(any(norm(strip_pre(e)) == "self._class_def.body.append(ast.Pass())" for e in o.effects) for o in outs), key(g, "empty root"),
+              "a root type without fields must give a class with `pass` (an empty class body is a SyntaxError)", g.loc(), okmsg="empty root -> class body `pass`")
+    # (c) the emitted method
+    from ..shape import Shaper, nodes, chain, seq_items, is_lit, Node
+    sh = Shaper(repo)
+    gm = repo.func(CO_ + "_generate_method")
+    v = sh.call_function(gm)
+    fdefs = [n for n in nodes(v, "FunctionDef")]
+    good = bool(fdefs)
+    for f in fdefs:
+        decos = seq_items(f.get("decorator_list"))
+        good = good and len(decos) == 1 and isinstance(decos[0], Node) and is_lit(decos[0].get("id"), "classmethod") and "str_to_snake_case" in repr(f.get("name")) and "operation_name" in repr(f.get("name"))
+        rets = [r for r in nodes(f, "Return")]
+        good = good and len(rets) == 1
+        if good:
+            call = rets[0].get("value")
+            kws = [k for k in seq_items(call.get("keywords")) if isinstance(k, Node)] if isinstance(call, Node) else []
+            first = kws[0] if kws else None
+            good = isinstance(call, Node) and call.kind == "Call" and not seq_items(call.get("args")) and first is not None and is_lit(first.get("arg"), "field_name") and \
+                isinstance(first.get("value"), Node) and first.get("value").kind == "Constant" and chain(first.get("value").get("value")) == "$operation_name"
+    ctx.check(good, key(gm, "emitted"), f"the emitted root builder must be `@classmethod def <snake_case(name)>(...): [arguments...] return <Type>(field_name=<GraphQL name>, ...)`: {repr(v)[:300]}", gm.loc(),
+              okmsg="emitted: classmethod <snake name> -> <Type>(field_name=<GraphQL name>, arguments=cleared)")
+    # the generator side of the method: imports of the argument types are taken over; arguments are cleared only when there are any
+    effg = lambda c: norm(c.func) in ("self._imports.extend", "self.argument_generator.generate_clear_arguments_section")
+    for has_args in (True, False):
+        outs = Interp(gm, lambda e, h=has_args: (h if norm(strip_pre(e)) == "operation_args" else None), is_effect=effg).run()
+        good = bool(outs)
+        for o in outs:
+            effs = [norm(strip_pre(e)) for e in o.effects]
+            good = good and "self._imports.extend(self.argument_generator.imports)" in effs
+            uses_clear = "generate_clear_arguments_section(" in norm(strip_pre(subst(o.value, o.env, deep=True))) if o.value is not None else False
+            good = good and uses_clear == has_args
+        ctx.check(good, key(gm, f"operation_args={has_args}"), f"[field with arguments={has_args}] imports of argument types must be taken over and the `arguments` / `cleared_arguments` section emitted iff there are arguments: "
+                  f"{[o.text()[:120] for o in outs][:1]}", gm.loc(), okmsg=f"arguments={has_args}: imports taken over, cleared-arguments section {'emitted' if has_args else 'left out'}")
+    ga = repo.func(CA_ + "generate_arguments")
+    effa = lambda c: norm(c.func) in ("self._accumulate_method_arguments", "self._accumulate_return_arguments")
+    outs = [o for o in Interp(ga, lambda e: None, is_effect=effa).run() if o.kind == "return" and any("loop body once" in t for t in o.trace)]
+    good = bool(outs)
+    for o in outs:
+        effs = [norm(strip_pre(e)) for e in o.effects]
+        good = good and len(effs) == 2 and effs[0].startswith("self._accumulate_method_arguments(") and effs[1].startswith("self._accumulate_return_arguments(")
+        v = strip_pre(o.value)
+        good = good and isinstance(v, ast.Tuple) and len(v.elts) == 3 and "self._assemble_method_arguments(" in norm(strip_pre(o.deref(v.elts[0])) if isinstance(v.elts[0], ast.Name) else v.elts[0])
+        good = good and "is_required=isinstance(<elem>(operation_args.items())[1].type, GraphQLNonNull)" in effs[0].replace(" ", "").replace("is_required=isinstance(", "is_required=isinstance(").replace(",GraphQLNonNull", ", GraphQLNonNull") or             (good and "isinstance(<elem>(operation_args.items())[1].type, GraphQLNonNull)" in effs[0])
+    ctx.check(good, key(ga, "per argument"), f"every argument must be added to the signature and to the arguments dict, and (signature, keys, values) returned: {[o.text()[:140] for o in outs][:1]}", ga.loc(),
+              okmsg="per argument: signature entry + arguments-dict entry; returns (signature, keys, values)")
+    ai = repo.func(CA_ + "add_custom_scalar_imports")
+    outs = [o for o in Interp(ai, lambda e: None, is_effect=lambda c: norm(c.func) == "self._add_import").run() if sum(1 for t in o.trace if "loop body once" in t) >= 2]
+    ctx.check(bool(outs) and all(len(o.effects) == 1 and "generate_scalar_imports(" in norm(strip_pre(o.effects[0])) and "self.custom_scalars[<elem>(self._used_custom_scalars)]" in norm(strip_pre(o.effects[0])) for o in outs),
+              key(ai, "scalar imports"), f"every import of every used custom scalar must be added: {[o.text()[:140] for o in outs][:1]}", ai.loc(), okmsg="imports of every used custom scalar are added")
+    src = norm(gm.node)
+    ctx.check("self.argument_generator.generate_arguments(operation_args=operation_args)" in src or "self.argument_generator.generate_arguments(operation_args)" in src, key(gm, "arguments source"),
+              "the method's arguments are not generated from the field's own arguments", gm.loc(), okmsg="arguments <- the field's own arguments")
+    # (d) argument kinds: annotation name and import
+    pt = repo.func(CA_ + "_parse_graphql_type_name")
+    eff3 = lambda c: norm(c.func) in ("self._add_import", "self._used_custom_scalars.append")
+    rows = [("GraphQLInputObjectType", None, None, "type_.name", ["generate_import_from(names=[type_.name], from_='input_types', level=1)"], "None"),
+            ("GraphQLEnumType", None, None, "type_.name", ["generate_import_from(names=[type_.name], level=1)"], "None"),
+            ("GraphQLScalarType", False, False, "INPUT_SCALARS_MAP.get(type_.name, 'Any')", [], "None"),
+            ("GraphQLScalarType", False, True, "INPUT_SCALARS_MAP.get(type_.name, 'Any')", ["generate_import_from(names=['Upload'], from_=BASE_MODEL_FILE_PATH.stem, level=1)"], "None"),
+            ("GraphQLScalarType", True, False, "self.custom_scalars[type_.name].type_name", [], "type_.name")]
+    for kind, custom, upload, name_txt, imports, scalar in rows:
+        def atom(e, kind=kind, custom=custom, upload=upload):
+            t = norm(strip_pre(e))
+            if t.startswith("isinstance(type_, "):
+                return t == f"isinstance(type_, {kind})"
+            if t.endswith(" not in self.custom_scalars"):
+                return not custom
+            if t.endswith(" in self.custom_scalars"):
+                return custom
+            if t.endswith("== UPLOAD_CLASS_NAME") or t.endswith("== 'Upload'"):
+                return upload
+            return None
+        outs = [o for o in Interp(pt, atom, is_effect=eff3).run() if o.kind == "return"]
+        good = bool(outs)
+        for o in outs:
+            v = strip_pre(o.value)
+            ann = strip_pre(v.elts[0]) if isinstance(v, ast.Tuple) and len(v.elts) == 2 else None
+            sc = v.elts[1] if isinstance(v, ast.Tuple) and len(v.elts) == 2 else None
+            sc = strip_pre(o.deref(sc)) if isinstance(sc, ast.Name) else sc
+            nm_ = argv(ann, 0, "name") if isinstance(ann, ast.Call) and dotted(ann.func) == "generate_annotation_name" else None
+            nm_ = strip_pre(subst(nm_, o.env, deep=True)) if nm_ is not None else None
+            imps = [norm(strip_pre(allargs(strip_pre(e))[0])) for e in o.effects if norm(strip_pre(e).func) == "self._add_import" and allargs(strip_pre(e))]
+            imps = [norm(strip_pre(subst(ast.parse(i, mode="eval").body, o.env, deep=True))) if False else i for i in imps]
+            good = good and nm_ is not None and norm(nm_) == name_txt and norm(argv(ann, 1, "nullable") or ast.Constant(0)) == "nullable" and sc is not None and norm(sc) == scalar
+            good = good and len(imps) == len(imports)
+            for got_i, want_i in zip(imps, imports):
+                gi_ = norm(strip_pre(subst(strip_pre(allargs(strip_pre([e for e in o.effects if norm(strip_pre(e).func) == "self._add_import"][imps.index(got_i)]))[0]), o.env, deep=True)))
+                good = good and gi_ == want_i
+            if custom:
+                good = good and any(norm(strip_pre(e)) in ("self._used_custom_scalars.append(type_.name)",) or "self._used_custom_scalars.append(" in norm(strip_pre(e)) for e in o.effects)
+        label = f"{kind}" + ("" if custom is None else f" custom={custom} upload={upload}")
+        ctx.check(good, key(pt, label), f"[{label}] annotation name / nullable flag / imports / reported scalar: {[o.text()[:160] for o in outs]}; expected generate_annotation_name({name_txt}, nullable), "
+                  f"{len(imports)} import(s), scalar {scalar}", pt.loc(), okmsg=f"[{label}] -> {name_txt}, {len(imports)} import(s)")
+    outs = Interp(pt, lambda e: (False if norm(strip_pre(e)).startswith("isinstance(type_, ") else None), is_effect=eff3).run()
+    ctx.check(bool(outs) and all(o.kind == "raise" and o.exc == "ParsingError" for o in outs), key(pt, "other kind"), "an argument of an output kind must be rejected with ParsingError", pt.loc(),
+              okmsg="argument of another kind -> ParsingError")
+    # (e) required -> positional; optional -> keyword-only with default None
+    am = repo.func(CA_ + "_accumulate_method_arguments")
+    eff4 = lambda c: isinstance(c.func, ast.Attribute) and c.func.attr == "append"
+    for req in (True, False):
+        outs = Interp(am, lambda e, req=req: (req if norm(strip_pre(e)) == "is_required" else (not req) if norm(strip_pre(e)) == "not is_required" else None), is_effect=eff4).run()
+        effs = [[norm(strip_pre(e)) for e in o.effects] for o in outs]
+        want = ["args.append(generate_arg(name=name, annotation=annotation))"] if req else ["kw_only_args.append(generate_arg(name=name, annotation=annotation))", "kw_defaults.append(generate_constant(value=None))"]
+        ctx.check(bool(effs) and all(e == want for e in effs), key(am, f"required={req}"), f"[argument required={req}] {effs}; expected {want}: an optional argument without a None default cannot be left out "
+                  "(and a None argument would not be cleared), a required one must not default", am.loc(), okmsg=f"required={req} -> {'positional' if req else 'keyword-only = None'}")
+    asm = repo.func(CA_ + "_assemble_method_arguments")
+    outs = [o for o in Interp(asm, lambda e: None).run() if o.kind == "return"]
+    ctx.check(bool(outs) and all(norm(strip_pre(o.value)) == "generate_arguments(args=[cls_arg, *args], kwonlyargs=kw_only_args, kw_defaults=kw_defaults)" for o in outs), key(asm, "signature"),
+              f"the signature must be (cls, *required, *, optional=None...): {[o.text()[:120] for o in outs]}", asm.loc(), okmsg="signature = cls + required, keyword-only optional with defaults")
